@@ -109,7 +109,8 @@ class rule_003(structure.Rule):
                         oNewToi = oToi.extract_tokens(iStartIndex, iToken)
                         sSolution = "Remove *after* from signals in reset portion of a clock process"
                         oViolation = violation.New(iLine, oNewToi, sSolution)
-                        self.add_violation(oViolation)
+                        if not oNewToi.token_type_exists(parser.comment):
+                            self.add_violation(oViolation)
                         bInsideAssignment = False
                         bAfterFound = False
 
